@@ -283,28 +283,27 @@ BuildBuckets(hashes, B) == [b \in 1..B |->
 
 (*---- lookups AS CODED ----*)
 (* NameBucketIter::new + next: [err] | [none] | [ok, items : Seq <<index0, hash>>] *)
-RECURSIVE BucketWalk(_, _, _, _)
-BucketWalk(nx, b, i, acc) ==           \* i: 0-based name table index
-    IF i >= Len(nx.names) THEN acc
-    ELSE LET h == nx.hashes[i + 1] IN
-         IF BVMod(h, nx.bcount) # b THEN acc
-         ELSE BucketWalk(nx, b, i + 1, Append(acc, [i |-> i, h |-> h]))
+(* the walk reads hashes from index i (0-based) while i < name_count and stops *)
+(* after the first hash that belongs to another bucket                        *)
+RECURSIVE ChainEnd(_, _, _)
+ChainEnd(nx, b, i) ==
+    IF i >= Len(nx.names) THEN i
+    ELSE IF BVMod(nx.hashes[i + 1], nx.bcount) # b THEN i
+    ELSE ChainEnd(nx, b, i + 1)
 BucketCoded(nx, b) ==
     IF b >= nx.bcount THEN ErrAny                                     \* bucket_data too short
     ELSE LET start == nx.buckets[b + 1] IN
          IF start = 0 THEN [none |-> TRUE]
          ELSE IF start - 1 > Len(nx.names) THEN ErrAny                \* skip beyond the hash table
-         ELSE [items |-> BucketWalk(nx, b, start - 1, <<>>)]
+         ELSE LET e == ChainEnd(nx, b, start - 1) IN
+              [items |-> [k \in 1..(e - (start - 1)) |-> [i |-> start - 2 + k, h |-> nx.hashes[start - 1 + k]]]]
 (* NameHashIter: indices with the wanted hash in the bucket hash mod bucket_count *)
 HashCoded(nx, h) ==
     IF nx.bcount = 0 THEN ErrAny
     ELSE LET r == BucketCoded(nx, BVMod(h, nx.bcount)) IN
          IF "err" \in DOMAIN r THEN r
          ELSE IF "none" \in DOMAIN r THEN [items |-> <<>>]
-         ELSE [items |-> LET it == r.items IN
-                  [k \in 1..Cardinality({x \in DOMAIN it : it[x].h = h}) |->
-                     LET S == {x \in DOMAIN it : it[x].h = h} IN
-                     it[CHOOSE x \in S : Cardinality({y \in S : y <= x}) = k].i]]
+         ELSE [items |-> LET m == SelectSeq(r.items, LAMBDA x : x.h = h) IN [k \in DOMAIN m |-> m[k].i]]
 (*---- exhaustive scans ----*)
 SeqOfSet(S) == [k \in 1..Cardinality(S) |-> CHOOSE x \in S : Cardinality({y \in S : y <= x}) = k]
 HashScan(nx, h) == SeqOfSet({i - 1 : i \in {j \in DOMAIN nx.hashes : nx.hashes[j] = h}})
@@ -544,4 +543,32 @@ LoaderExp(api, main, sup, parent, fail) ==
                          ELSE IF api = "Dwarf::make_dwo" THEN [f \in DwarfIds |-> sup[f]]       \* the parent's sup
                          ELSE [none |-> TRUE],
           file_type |-> IF api = "Dwarf::make_dwo" THEN "Dwo" ELSE "Main"]
+
+(***************************************************************************)
+(* Uniform name indexes (used for large tables in trace validation): one   *)
+(* abbreviation (code 1, DW_TAG_subprogram, DW_IDX_die_offset/ref4), one   *)
+(* entry per name.  hint: [fmt, cus, bcount, buckets, hashes, stroffs,     *)
+(* dies (BV4)].  EncNamesUniform is a linear-time layout; MCNames checks   *)
+(* that it equals the general EncNames of UniformNx(hint).                 *)
+(***************************************************************************)
+UniformAbbrevs == << [code |-> 1, tag |-> 46, attrs |-> <<[idx |-> 3, form |-> F_ref4]>>] >>
+UniformNx(h) == [fmt |-> h.fmt, ver |-> 5, aug |-> <<>>, cus |-> h.cus, ltus |-> <<>>, ftus |-> <<>>,
+                 bcount |-> h.bcount, buckets |-> h.buckets, hashes |-> h.hashes,
+                 names |-> [i \in DOMAIN h.stroffs |->
+                              [stroff |-> h.stroffs[i],
+                               series |-> << [code |-> 1, vals |-> <<[v |-> ZExt(h.dies[i], 8), to |-> <<0, 0>>]>>] >>]],
+                 abbrevs |-> UniformAbbrevs, term |-> TRUE, abbrev_pad |-> <<>>, eoffs |-> <<>>]
+EncNamesUniform(h, le) ==
+    LET n == Len(h.stroffs)
+        w == WordSize(h.fmt)
+        body == U16(5, le) \o <<0, 0>> \o U32(Len(h.cus), le) \o U32(0, le) \o U32(0, le)
+                \o U32(h.bcount, le) \o U32(n, le) \o U32(7, le) \o U32(0, le)
+                \o FlatW([i \in DOMAIN h.cus |-> Word(h.cus[i], h.fmt, le)], w)
+                \o FlatW([i \in DOMAIN h.buckets |-> U32(h.buckets[i], le)], 4)
+                \o (IF h.bcount = 0 THEN <<>> ELSE FlatW([i \in 1..n |-> Lay(h.hashes[i], le)], 4))
+                \o FlatW([i \in 1..n |-> Word(h.stroffs[i], h.fmt, le)], w)
+                \o FlatW([i \in 1..n |-> Word(6 * (i - 1), h.fmt, le)], w)
+                \o <<1, 46, 3, 19, 0, 0, 0>>
+                \o FlatW([i \in 1..n |-> <<1>> \o Lay(h.dies[i], le) \o <<0>>], 6)
+    IN InitLen(h.fmt, Len(body), le) \o body
 =============================================================================
